@@ -1,3 +1,5 @@
+CONSTANT NSamples = 3
+CONSTANT Deep = FALSE
 INIT Init
 NEXT Next
 INVARIANT Rules
